@@ -242,6 +242,24 @@ def catalogue(tier: str, seed: int, purpose: str = "all") -> list[dict]:
             continue
         out.append({"family": "ldpc", "H": H, "kind": kind})
     out.append({"family": "ldpc", "kind": "example3x6", "H": [[1, 1, 0, 1, 0, 0], [0, 1, 1, 0, 1, 0], [1, 0, 1, 0, 0, 1]]})
+    # the same objects in another *form*: a deep copy, the module converted with .double(), converted there and back,
+    # re-initialised through state_dict of a twin -- one seeded representative per (family, information-set kind, variant)
+    reps: dict = {}
+    for s in out:
+        n_, k_ = nk(s)
+        if n_ > 31 or k_ > 16 or k_ < 2 or k_ == n_:
+            continue
+        if s["family"] == "bch" and not s.get("must_construct"):
+            continue
+        reps.setdefault((s["family"], str(s.get("info_kind")), s.get("extended"), s.get("kind"), s.get("variant")), []).append(s)
+    for key in sorted(reps, key=str):
+        cands = reps[key]
+        picks = [rng.choice(cands)] if q else rng.sample(cands, min(3, len(cands)))
+        for j, s in enumerate(picks):
+            for form in FORMS:
+                if form == "deepcopy" and s["family"] in ("bch", "rs"):
+                    continue  # GF(2^m) element objects do not support copy/pickle (outside the properties)
+                out.append(dict(s, form=form))
     for i, s in enumerate(out):
         s["id"] = i
     return out
@@ -386,8 +404,38 @@ def name(spec: dict) -> str:
     return f"{spec['family']}|{cfg(spec)}"
 
 
+FORMS = ("deepcopy", "double", "double_float", "state_dict")
+
+
 def build(spec: dict):
-    """Construct the real encoder.  stdout chatter of constructors is swallowed."""
+    """Construct the real encoder (in the form the entry asks for).  stdout chatter of constructors is swallowed."""
+    form = spec.get("form")
+    if not form:
+        return _build(spec)
+    import copy
+
+    base = dict(spec)
+    base.pop("form")
+    enc = _build(base)
+    with contextlib.redirect_stdout(io.StringIO()):
+        if form == "deepcopy":
+            # the original is used once first (lazily filled attributes exist), then copied
+            import torch
+
+            enc(torch.zeros(int(enc.code_dimension)))
+            return copy.deepcopy(enc)
+        if form == "double":
+            return enc.double()
+        if form == "double_float":
+            return enc.double().float()
+        if form == "state_dict":
+            twin = _build(base)
+            twin.load_state_dict(copy.deepcopy(enc.state_dict()))
+            return twin
+    raise ValueError(form)
+
+
+def _build(spec: dict):
     import torch
 
     from kaira.models.fec import encoders as E
